@@ -191,6 +191,27 @@ def k_sec_header(ctx, service, subservice, source_id, ack):
               "unpack", "", case, observed=repr(h))
 
 
+def poison_tc(r):
+    """Operations on *another*, invalid telecommand that fail part-way (fault sequence): whatever they leave behind in
+    module-level or class-level state must not affect the valid packets handled afterwards."""
+    tcm, sp, _ = _imp()
+    outcomes = []
+    for mk in (lambda: tcm.PusTc(service=r.choice((256, 300, 70000)), subservice=1, apid=r.getrandbits(11), app_data=b"ab"),
+               lambda: tcm.PusTc(service=17, subservice=r.choice((256, 999)), apid=1),
+               lambda: tcm.PusTc(service=17, subservice=1, apid=1, source_id=r.choice((65536, 1 << 20))),
+               lambda: tcm.PusTc(service=17, subservice=1, apid=1, app_data=r.choice((None, "text", 5)))):
+        ok, t = attempt(mk)
+        if not ok:
+            outcomes.append("ctor:" + type(t).__name__)
+            continue
+        for name in r.sample(("calc_crc", "pack", "to_space_packet"), 2):
+            ok, e = attempt(getattr(t, name))
+            outcomes.append(name + (":ok" if ok else ":" + type(e).__name__))
+    ok, e = attempt(tcm.PusTc.unpack, r.randbytes(r.randrange(0, 20)))
+    outcomes.append("unpack" + (":ok" if ok else ":" + type(e).__name__))
+    return outcomes
+
+
 def k_view_history(ctx, seed):
     """Multi-step use of one object: after any mix of pack / calc_crc / to_space_packet / unpack and field changes through the
     public setters, pack() and the space-packet view both equal the model of the *current* field values."""
@@ -206,15 +227,22 @@ def k_view_history(ctx, seed):
         t = tcm.PusTc.unpack(bytes(t.pack()))
     ops = []
     for step in range(r.randrange(2, 9)):
-        op = r.choice(("pack", "calc_crc", "view", "apid", "seq_count", "source_id", "app_data", "pack_cached"))
+        op = r.choice(("pack", "calc_crc", "view", "apid", "seq_count", "source_id", "app_data", "pack_cached", "poison", "calc_crc_cached"))
         ops.append(op)
         if op == "pack":
             got = bytes(t.pack())
         elif op == "pack_cached":
             t.pack()
             got = bytes(t.pack(recalc_crc=False))
+        elif op == "calc_crc_cached":
+            t.calc_crc()
+            got = bytes(t.pack(recalc_crc=False))
         elif op == "calc_crc":
             t.calc_crc()
+            continue
+        elif op == "poison":
+            for o in poison_tc(r):
+                ctx.table("poison_outcomes", o)
             continue
         elif op == "view":
             got = bytes(t.to_space_packet().pack())
@@ -234,9 +262,30 @@ def k_view_history(ctx, seed):
             continue
         want = R.tc(f["apid"], f["count"], f["service"], f["subservice"], f["source_id"], f["ack"], f["data"])
         what = "space_packet_view" if op == "view" else "pack"
+        if "poison" in ops and not any(o in ops for o in ("apid", "seq_count", "source_id", "app_data")):
+            what += "_after_failed_operations_on_another_packet"
         if not ctx.check("tc.view_history", got == want, f"{what}_differs_from_current_fields", _octet_diff(got, want) + "/after_field_change" if any(o in ops for o in ("apid", "seq_count", "source_id", "app_data")) else _octet_diff(got, want),
                          dict(case, ops=ops), observed=got, expected=want):
             return
+
+
+def craft_tc_crc_boundary(rng, where, target, n):
+    """Field values of a telecommand whose CRC register equals `target` after the primary header (where='primary') or after
+    primary + secondary header (where='secondary')."""
+    from spverif.ref.crc import find16
+    from spverif.ref import ccsds as H
+    for _ in range(64):
+        apid, svc, sub, ack, sid, count = rng.getrandbits(11), rng.getrandbits(8), rng.getrandbits(8), rng.getrandbits(4), rng.getrandbits(16), rng.getrandbits(14)
+        if where == "primary":
+            x = find16(b"", lambda x: H.encode_header(0, 1, 1, apid, 3, x, n + 6), target, 16384)
+            if x is not None:
+                return apid, x, svc, sub, sid, ack
+        else:
+            head = H.encode_header(0, 1, 1, apid, 3, count, n + 6) + bytes([0x20 | ack, svc, sub])
+            x = find16(head, lambda x: x.to_bytes(2, "big"), target)
+            if x is not None:
+                return apid, count, svc, sub, x, ack
+    return None
 
 
 def k_tc_wrong_type(ctx, apid, count, data):
@@ -352,6 +401,15 @@ def run(ctx):
              rand_uint(r, 4), rnd_data(n), model_fed=r.random() < 0.5)
     for j in range(ctx.n(1500, 150_000)):
         k_view_history(ctx, ctx.seed * 1_000_003 + ctx.shard[0] * 100_003 + j)
+    # telecommands whose running CRC is exactly 0x0000 / 0xFFFF after the primary header, or after both headers
+    for where in ("primary", "secondary"):
+        for target in (0x0000, 0xFFFF):
+            for n in (0, 3, 17):
+                f = craft_tc_crc_boundary(r, where, target, n)
+                if f is not None:
+                    ctx.table("crc_register_at_boundary", f"{where}/{target:04x}")
+                    for route in ROUTES:
+                        k_tc(ctx, route, f[0], f[1], f[2], f[3], f[4], f[5], rnd_data(n), model_fed=(n == 3))
     for n in list(range(0, 40)) + [255, 256, 257, 1000, 4095, 4096, 4097, 8191, 8192, 8193, 12288, 16384, 32768, 65535, 65536]:
         k_crc_helpers(ctx, rnd_data(n).hex())
         k_tc_wrong_type(ctx, r.getrandbits(11), r.getrandbits(14), rnd_data(n % 20).hex())
@@ -367,6 +425,7 @@ def conclude(ctx):
     for route in ROUTES:
         for lc in ("0", "1-64", "65-4096", "big"):
             ctx.require(ctx.classes.get(f"tc/{route}/len={lc}", 0) > 0, f"class tc/{route}/len={lc} empty")
+    ctx.require(len(ctx.tables.get("crc_register_at_boundary", {})) == 4, "crafted CRC-boundary telecommands missing")
     for n in range(7, 13):
         ctx.require(ctx.tables.get("short_declared_total", {}).get(str(n), 0) > 0, f"no crafted short buffer with declared total {n}")
     for m in ("tc.pack", "tc.unpack", "tc.roundtrip", "tc.space_packet_view", "tc.crc", "tc.refusal", "tc.view_history",
